@@ -45,9 +45,11 @@ CONFIG = dict(
                  "the greenlet tree does not change during one extraction"],
     unproved_legs=["greenback: the frame shapes of greenback/greenlet/outcome/trio (what each object unwraps to, which frames "
                    "follow which) are modelled from recorded runs, not derived; agreement of M_Greenback.gb_extract with the real "
-                   "extract(task.coro) is checked by the correspondence kind 'gb' for n <= 3 / j <= 2 (thorough n <= 6 / j <= 3)",
+                   "extract(<task coroutine>) is checked by the correspondence kind 'gb' for n <= 3 / j <= 2 (thorough n <= 6 / j <= 3), "
+                   "under trio and under asyncio, incl. every level resumed by throw() (task.cancel()+uncancel, asyncio.timeout)",
                    "greenback: the composition of the tabulated hooks with the general extract_iter model (M_Frames.extract) "
-                   "is proved by a finite sweep for n <= 6, j <= 3 (C15_greenback_composes_with_extract_iter), not for all n; "
+                   "is proved by a finite sweep for n <= 6, j <= 3, throw-resumed level <= 6, both hosts "
+                   "(C15_greenback_composes_with_extract_iter), not for all n; "
                    "the for-all-n theorems C15_greenback_n_* are about the specialised walk gb_extract"],
     timeout={"quick": 900, "thorough": 3600},
     NOTES="greenback: specialised model M_Greenback instead of an M_Frames hook table (M_Frames.elab does not see next_inner).",
@@ -65,6 +67,17 @@ def make_inputs(tier, seed):
         yield {"_kind": "gb", "inside": False, "n": n, "j": 0}
         for j in range(jmax + 1):
             yield {"_kind": "gb", "inside": True, "n": n, "j": j}
+    # asyncio-hosted tasks; at level err the coroutine is resumed by throw() (cancellation caught and
+    # uncancelled / asyncio.timeout expiring and handled) and then goes on down
+    for n in range(nmax + 1):
+        for err in [None] + list(range(n + 1)):
+            hows = [None] if err is None else (["cancel", "timeout"] if (tier != "quick" or (n + err + seed) % 2 == 0)
+                                                else [["cancel", "timeout"][(n + seed) % 2]])
+            for how in hows:
+                base = {"_kind": "gb", "host": "asyncio", "n": n, "err": err, "how": how}
+                yield dict(base, inside=False, j=0)
+                for j in ([0, 1] if tier == "quick" else range(jmax + 1)):
+                    yield dict(base, inside=True, j=j)
     k = 0
     for s in SUSP:
         for a in ASKER:
@@ -233,7 +246,8 @@ def _classes():
 
 def run_case(desc):
     if desc.get("_kind") == "gb":
-        return gb_scenario(desc["inside"], desc["n"], desc["j"])
+        return gb_scenario(desc["inside"], desc["n"], desc["j"], host=desc.get("host", "trio"),
+                           err=desc.get("err"), how=desc.get("how"))
     c = _classes()(desc)
     c.run(desc["base"])
     internal = c.internal_chain()
@@ -281,7 +295,9 @@ def coq_case(desc, obs):
 def direct_oracle(desc, obs):
     if desc.get("_kind") == "gb":
         msg = gb_oracle(desc, obs)
-        return None if msg is None else "greenback task, alternation depth %d, extracted from %s: %s" % (
+        return None if msg is None else "greenback task under %s%s, alternation depth %d, extracted from %s: %s" % (
+            desc.get("host", "trio"),
+            "" if desc.get("err") is None else " (level %d resumed by throw(): %s)" % (desc["err"], desc["how"]),
             desc["n"], ("inside, %d greenlet(s) below the task's sync code" % desc["j"]) if desc["inside"] else "outside", msg)
     if obs["problems"]:
         return "harness self-check failed: " + "; ".join(obs["problems"])
@@ -303,7 +319,11 @@ def direct_oracle(desc, obs):
 
 def classify(desc, obs):
     if desc.get("_kind") == "gb":
-        return ["greenback:%s" % ("inside-j%d" % desc["j"] if desc["inside"] else "outside"), "greenback:n=%d" % desc["n"]]
+        return ["greenback:%s" % ("inside-j%d" % desc["j"] if desc["inside"] else "outside"), "greenback:n=%d" % desc["n"],
+                "greenback:" + desc.get("host", "trio"),
+                "greenback:throw-" + ("none" if desc.get("err") is None else
+                                      ("top" if desc["err"] == desc["n"] else "leaf" if desc["err"] == 0 else "middle")),
+                "greenback:Error.send=%d" % sum(1 for _, _, k in obs["frames"] if k == "Error.send")]
     labs = ["asker-segments=%d" % (1 + len(obs["parents"])), "base:" + desc["base"],
             "parked=%d" % sum(1 for g in obs["glets"] if g["name"].startswith("susp"))]
     for g, r in zip(obs["glets"], obs["results"]):
@@ -317,25 +337,45 @@ BRIDGE = ("await_", "_greenback_shim", "trampoline", "switch", "send", "adapt_aw
 ALLOWED_VISIBLE = ("greenback_shim", "wait")
 
 
-def gb_scenario(inside, n, j, portal=True):
-    """A trio task alternating n times between async code (a_level k) and sync code (s_level k)
-    through greenback.await_.  Its stack is extracted (extract(task.coro)) either from another
-    task while it is parked at level 0 (outside), or from its own innermost sync code, j greenlets
-    below it (inside; j = 0: directly).  Returns the frames (name, hidden), the error and the
-    shadow call stack at the moment of the extraction."""
+def _frames_of(st):
+    out = []
+    for f in st.frames:
+        code = f.pyframe.f_code
+        kind = code.co_name
+        if kind == "send":
+            kind = getattr(code, "co_qualname", "send")      # Value.send / Error.send
+        out.append([code.co_name, bool(f.hide), kind])
+    return out
+
+
+def gb_scenario(inside, n, j, portal=True, host="trio", err=None, how=None):
+    """A task alternating n times between async code (a_level k) and sync code (s_level k)
+    through greenback.await_, hosted by trio or asyncio.  Its stack is extracted (extract(<task
+    coroutine>)) either from another task while it is parked at level 0 (outside), or from its own
+    innermost sync code, j greenlets below it (inside; j = 0: directly).  With err = m (asyncio
+    only) the coroutine of level m first waits under a timeout / gets cancelled, handles that --
+    i.e. it is resumed by coro.throw() -- and then goes on down without another await of its own.
+    Returns the frames (name, hidden, kind), the error and the shadow call stack at that moment."""
     import greenback
     import greenlet
-    import trio
     import stackscope
+    aio = host == "asyncio"
+    if aio:
+        import asyncio
+    else:
+        import trio
 
     box = {}
     shadow = []
+
+    def the_coro():
+        return box["task"].get_coro() if aio else box["task"].coro
 
     def probe():
         shadow.append("probe")
         try:
             box["shadow"] = list(shadow)
-            box["stack"] = stackscope.extract(box["task"].coro, with_contexts=False)
+            box["stack"] = stackscope.extract(the_coro(), with_contexts=False)
         finally:
             shadow.pop()
 
@@ -355,9 +395,31 @@ def gb_scenario(inside, n, j, portal=True):
         finally:
             shadow.pop()
 
+    async def handle_error():
+        if how == "timeout":
+            try:
+                async with asyncio.timeout(0.001):
+                    await asyncio.sleep(3600)
+            except TimeoutError:
+                pass
+        else:
+            task = asyncio.current_task()
+            asyncio.get_running_loop().call_soon(task.cancel)
+            try:
+                await asyncio.sleep(3600)
+            except asyncio.CancelledError:
+                task.uncancel()
+
     async def a_level(k):
         shadow.append("a_level")
         try:
+            if aio and k == err:
+                await handle_error()
+            elif k > 0 or not inside:
+                if aio:
+                    await asyncio.sleep(0)
+                else:
+                    await trio.lowlevel.checkpoint()
             if k == 0:
                 if inside:
                     s_leaf()
@@ -365,7 +427,6 @@ def gb_scenario(inside, n, j, portal=True):
                     box["parked"].set()
                     await box["go"].wait()
                 return
-            await trio.lowlevel.checkpoint()
             s_level(k)
         finally:
             shadow.pop()
@@ -380,25 +441,37 @@ def gb_scenario(inside, n, j, portal=True):
     async def target():
         shadow.append("target")
         try:
-            box["task"] = trio.lowlevel.current_task()
+            box["task"] = asyncio.current_task() if aio else trio.lowlevel.current_task()
             if portal:
                 await greenback.ensure_portal()
             await a_level(n)
         finally:
             shadow.pop()
 
-    async def main():
-        box["parked"], box["go"] = trio.Event(), trio.Event()
-        async with trio.open_nursery() as nur:
-            nur.start_soon(target)
+    if aio:
+        async def main():
+            box["parked"], box["go"] = asyncio.Event(), asyncio.Event()
+            t = asyncio.create_task(target())
             if not inside:
                 await box["parked"].wait()
                 box["shadow"] = list(shadow)
-                box["stack"] = stackscope.extract(box["task"].coro, with_contexts=False)
+                box["stack"] = stackscope.extract(the_coro(), with_contexts=False)
                 box["go"].set()
-    trio.run(main)
+            await t
+        asyncio.run(main())
+    else:
+        async def main():
+            box["parked"], box["go"] = trio.Event(), trio.Event()
+            async with trio.open_nursery() as nur:
+                nur.start_soon(target)
+                if not inside:
+                    await box["parked"].wait()
+                    box["shadow"] = list(shadow)
+                    box["stack"] = stackscope.extract(the_coro(), with_contexts=False)
+                    box["go"].set()
+        trio.run(main)
     st = box["stack"]
-    return {"frames": [[f.pyframe.f_code.co_name, bool(f.hide)] for f in st.frames],
+    return {"frames": _frames_of(st),
             "error": None if st.error is None else repr(st.error)[:200],
             "leaf": None if st.leaf is None else repr(st.leaf)[:80],
             "shadow": box["shadow"]}
@@ -409,7 +482,7 @@ def gb_oracle(desc, obs):
     own frames are present, bridging internals hidden, no error"""
     if obs["error"] is not None:
         return "error %s" % obs["error"]
-    vis = [nm for nm, hid in obs["frames"] if not hid]
+    vis = [nm for nm, hid, _ in obs["frames"] if not hid]
     user = [nm for nm in vis if nm in USER]
     if user != obs["shadow"]:
         return "user frames %r, the call stack at that moment is %r" % (user, obs["shadow"])
@@ -421,14 +494,15 @@ def gb_oracle(desc, obs):
         return "unexpected visible frames %r" % other
     if desc["inside"] and (not vis or vis[-1] != "probe"):
         return "the caller's own frames are missing: innermost visible frame %r" % (vis[-1:] or None)
-    if any(nm.startswith("extract") or nm.startswith("unwrap_") for nm, _ in obs["frames"]):
+    if any(nm.startswith("extract") or nm.startswith("unwrap_") for nm, _, _ in obs["frames"]):
         return "stackscope's own frames in the result"
-    if desc["n"] and not any(nm == "await_" and hid for nm, hid in obs["frames"]):
+    if desc["n"] and not any(nm == "await_" and hid for nm, hid, _ in obs["frames"]):
         return "no hidden await_ frame although n=%d" % desc["n"]
     return None
 
 
-_GBK = {"greenback_shim": "FShimCoro", "_greenback_shim": "FShim", "trampoline": "FTramp", "send": "FSend",
+_GBK = {"greenback_shim": "FShimCoro", "_greenback_shim": "FShim", "trampoline": "FTramp",
+        "Value.send": "FSend", "Error.send": "FSendE",
         "target": "FTarget", "s_leaf": "FLeaf", "nested": "FNested", "probe": "FProbe", "wait": "FWait",
         "wait_task_rescheduled": "FWTR", "switch": "FSwitch"}
 _GBL = {"a_level": "FA", "s_level": "FS", "await_": "FAwait"}
@@ -437,7 +511,8 @@ _GBL = {"a_level": "FA", "s_level": "FS", "await_": "FAwait"}
 def gb_coq(desc, obs):
     cnt = {}
     ents = []
-    for nm, hid in obs["frames"]:
+    for nm, hid, kind in obs["frames"]:
+        nm = kind if nm == "send" else nm
         if nm in _GBL:
             i = cnt.get(nm, 0)
             cnt[nm] = i + 1
@@ -448,7 +523,10 @@ def gb_coq(desc, obs):
         else:
             ents.append("(FSwitch, false)")          # unknown frame: never produced by the model
     res = ("GErr %s" if obs["error"] is not None else "GOk %s") % clist(ents)
-    return "(Build_scenario %s %d %d, %s)" % (cbool(desc["inside"]), desc["n"], desc["j"], res)
+    err = desc.get("err")
+    return "(Build_scenario %s %d %d %s %s, %s)" % (cbool(desc["inside"]), desc["n"], desc["j"],
+                                                    copt(None if err is None else str(err)),
+                                                    cbool(desc.get("host") == "asyncio"), res)
 
 
 def extra_legs(tier, seed):
